@@ -108,6 +108,16 @@ TOK = {
     "paste": ("\x1b[200~xy\x1b[201~", ["begin paste", "x", "y", "end paste"]),
     "Q": ("Q", ["Q"]),
 }
+# one key whose bytes reach the terminal in two writes, the second after the loop has read the first: (frag1, frag2, keys)
+SPLIT = {
+    "s_up": ("\x1b", "[A", ["up"]),
+    "s_u8": ("\xc3", "\xa9", ["\u00e9"]),
+    "s_m1": ("\x1b[<0;4", ";3M", [["mouse press", 1, 3, 2]]),
+    "s_f5": ("\x1b[1", "5~", ["f5"]),
+}
+COMPLETE_WAIT = 0.4  # generous, so that a slow driver thread does not let a split key time out for real
+HOLD = COMPLETE_WAIT + 0.12  # the loop is kept waiting this long after the last split's first fragment was read
+SCRIPT_P = ["a", "s_up", "bz", "s_u8", "@alarm0", "s_m1", "s_f5", "@hold", "up", "@alarm1", "Q"]
 SCRIPT_A = ["a", "bz", "m1", "up", "focus", "@alarm0", "@winch", "@pipe", "@file", "paste", "p", "a", "m1", "m1out", "c", "@alarm1", "Q"]
 SCRIPT_S = ["a", "bz", "m1", "@alarm0", "@winch", "@pipe", "@file", "up", "m3", "@alarm1", "Q"]
 SCRIPT_B = ["@winch", "@pipe", "a", "m3", "@alarm0", "@file", "p", "bz", "m1", "c", "up", "paste", "@alarm1", "@winch2", "focus", "Q"]
@@ -122,6 +132,14 @@ def build_script(tokens, cfg):
         if t == "paste" and not cfg["paste"]:
             continue
         if t in ("@pipe", "@file") and not cfg["hook"]:
+            continue
+        if (t in SPLIT or t == "@hold") and not cfg["hook"]:
+            continue  # _run_screen_event_loop never shows an incomplete read to the filter: a split cannot be observed
+        if t in SPLIT:
+            steps.append(["split", [SPLIT[t][0], SPLIT[t][1]], t])
+            continue
+        if t == "@hold":
+            steps.append(["hold", HOLD, t])
             continue
         if t == "@alarm0":
             steps.append(["alarm", 0, t])
@@ -157,6 +175,8 @@ def make_spec(cfg, tokens, inject=None):
         "script": build_script(tokens, cfg),
         "tokens": list(tokens),
         "inject": inject,
+        "utf8": any(t in SPLIT for t in tokens),
+        "complete_wait": COMPLETE_WAIT if any(t in SPLIT for t in tokens) else None,
     }
 
 
@@ -190,7 +210,46 @@ def expected_keys(spec):
     for st in spec["script"]:
         if st[0] == "keys":
             out.extend(TOK[st[2]][1])
+        elif st[0] == "split":
+            out.extend(SPLIT[st[2]][2])
     return out
+
+
+def _is_subseq(a, b):
+    it = iter(b)
+    return all(any(x == y for y in it) for x in a)
+
+
+def split_facts(spec, log, limit, ctx):
+    """bookkeeping for split keys -> (some split timed out for real, stale-alarm window covered)"""
+    timed_out = False
+    n_obs = 0
+    last_first_read = None
+    for i in range(limit):
+        e = log[i]
+        if e["site"] != "step" or e["kind"] != "split":
+            continue
+        j = next((x for x in range(i + 1, limit) if log[x]["site"] == "step2" and log[x]["n"] == e["n"]), None)
+        if j is None:
+            continue
+        between = [x for x in log[i + 1 : j] if x["site"] == "filter"]
+        if any(x["keys"] for x in between):
+            timed_out = True  # complete_wait really expired before the second write: urwid rightly delivered the fragment
+            ctx.count("split_timed_out_not_judged")
+        elif log[j].get("first_read_seen"):
+            n_obs += 1
+            ctx.count("split_observed")
+            ctx.count(f"split_observed:{spec['script'][e['n']][2]}")
+            last_first_read = next(x["t"] for x in between if not x["keys"])
+        else:
+            ctx.count("split_not_observed")
+    covered = False
+    if n_obs and last_first_read is not None:
+        held = next((x for x in log[:limit] if x["site"] == "held"), None)
+        if held is not None and held["t"] >= last_first_read + float(spec["complete_wait"]) + 0.03:
+            covered = True
+            ctx.count("split_stale_alarm_window_covered")
+    return timed_out, covered
 
 
 def judge(spec, res, ctx, base_rst=None):  # noqa: C901, PLR0912, PLR0915
@@ -318,9 +377,16 @@ def judge(spec, res, ctx, base_rst=None):  # noqa: C901, PLR0912, PLR0915
             stage = None
             continue
     complete = not reached
-    if not ord_broken:
+    split_timed_out, _ = split_facts(spec, log, inj_pos if reached else len(log), ctx)
+    if split_timed_out:
+        ctx.count("ORD_sessions_not_judged_split_timed_out")
+    elif not ord_broken:
         if got_keys != exp_keys[: len(got_keys)]:
-            add("ORD", "arrival-order", f"filter saw {got_keys!r}, script sent {exp_keys!r}")
+            if _is_subseq(exp_keys[: max(0, len(got_keys) - 1)], got_keys) and len(got_keys) <= len(exp_keys) + 2:
+                extra = [k for k in got_keys if k not in exp_keys]
+                add("ORD", "phantom-input-event", f"the filter saw an input event that was never sent: {extra!r}; saw {got_keys!r}, script sent {exp_keys!r}")
+            else:
+                add("ORD", "arrival-order", f"filter saw {got_keys!r}, script sent {exp_keys!r}")
         elif complete and out["how"] == "returned" and got_keys != exp_keys:
             add("ORD", "input-lost", f"filter saw {got_keys!r}, script sent {exp_keys!r}")
         elif complete and (pending or stage == "need-unhandled") and not _final_exit(log):
@@ -398,9 +464,9 @@ def judge(spec, res, ctx, base_rst=None):  # noqa: C901, PLR0912, PLR0915
                 add("EXIT", "exitmainloop-ignored", f"ExitMainLoop from {icls} did not end run(); session went on until final exit via {fe}; {len(after)} callbacks later")
         else:
             if out["how"] == "returned":
-                add("EXIT", "boom-swallowed", f"Boom from {icls} never left run(): run() returned normally (final exit via {fe}); {len(after)} callbacks ran after it")
+                add("EXIT", f"{kind}-swallowed", f"{kind} from {icls} never left run(): run() returned normally (final exit via {fe}); {len(after)} callbacks ran after it")
             elif not out.get("same_object"):
-                add("EXIT", f"boom-replaced-by:{out.get('exc_type')}", f"run() raised {out.get('exc_repr')} instead of the injected object\n{out.get('tb', '')}")
+                add("EXIT", f"{kind}-replaced-by:{out.get('exc_type')}", f"run() raised {out.get('exc_repr')} instead of the injected object\n{out.get('tb', '')}")
         # Callbacks that run between the fault and run() ending are COUNTED, not judged: asyncio/tornado/twisted/trio stop
         # at the end of the current loop iteration, so whatever was already ready in it still runs; the statement only
         # fixes how run() ends.  A fault that does not end run() shows up above (session reaches its own final exit).
